@@ -492,10 +492,24 @@ def op_pdu_unpack(a):
 
 def op_holder_matrix(a):
     from spacepackets.cfdp.pdu.helper import PduHolder
+    from .probe import _raw
 
     def run():
         obj, _, _, _ = mk_pdu(a["kind"], a["cfg"], a["p"])
-        return {"row": _row(PduHolder(obj))}
+        fresh = _row(PduHolder(obj))
+        # a holder with a history: it held another PDU whose accessors / inspectors were used, then the PDU under test is
+        # assigned (attribute and property route); it must answer exactly like a fresh holder
+        for route in ("pdu", "base"):
+            other = "prompt" if a["kind"] != "prompt" else "eof"
+            h = PduHolder(pdu_class(other).unpack(_raw("pdu:" + other)))
+            _row(h), h.pdu_directive_type, h.pdu_type, h.packet_len
+            setattr(h, route, obj)
+            used = _row(h)
+            dt = h.pdu_directive_type
+            want = None if a["kind"] == "filedata" else int(obj.directive_type)
+            if used != fresh or (None if dt is None else int(dt)) != want:
+                return {"row": used, "history": f"holder re-used via .{route}: directive type {dt}, fresh row {fresh}"}
+        return {"row": fresh}
     return outcome(run)
 
 
